@@ -184,8 +184,9 @@ Section Struct.
     end.
 
   (* internally tagged enum (serde TaggedContentVisitor): map form — the tag may be anywhere, twice is an
-     error, its value must be a string naming a variant, the other entries go to the variant's struct;
-     sequence form — first element is the tag *)
+     error, the other entries go to the variant's struct; sequence form — first element is the tag.
+     The tag value names a variant by a string; when the enum is itself decoded from buffered content
+     (idx_tags: an enum nested in another internally tagged enum) serde also accepts the variant INDEX *)
   Fixpoint split_tag (tag : str) (m : list (str * json)) (seen : option json) (rest : list (str * json))
     : dres (option json * list (str * json)) :=
     match m with
@@ -194,46 +195,59 @@ Section Struct.
         if str_eqb k tag then
           match seen with
           | Some _ => DErr EDupField
-          | None => match v with
-                    | JStr _ => split_tag tag m' (Some v) rest
-                    | _ => DErr ETagType
-                    end
+          | None => split_tag tag m' (Some v) rest
           end
         else split_tag tag m' seen ((k, v) :: rest)
     end.
 
-  Definition tagged (tag : str) (variants : list (str * fields)) (j : json) : dres (str * decoded) :=
+  Definition tag_variant (idx_tags : bool) (variants : list (str * fields)) (v : json) : dres (str * fields) :=
+    match v with
+    | JStr name => match assoc name variants with
+                   | Some fs => DOk (name, fs)
+                   | None => DErr EUnknownVariant
+                   end
+    | JNum (NumU n) =>
+        if idx_tags then
+          if n <? N.of_nat (length variants)
+          then match nth_error variants (N.to_nat n) with
+               | Some nf => DOk nf
+               | None => DErr EUnknownVariant
+               end
+          else DErr EUnknownVariant
+        else DErr ETagType
+    | _ => DErr ETagType
+    end.
+
+  Definition tagged (idx_tags : bool) (tag : str) (variants : list (str * fields)) (j : json) : dres (str * decoded) :=
     match j with
     | JObj m =>
         match split_tag tag m None [] with
         | DErr e => DErr e
         | DOk (None, _) => DErr EMissingTag
-        | DOk (Some (JStr name), rest) =>
-            match assoc name variants with
-            | None => DErr EUnknownVariant
-            | Some fs => match struct_of_map fs rest with
-                         | DOk d => DOk (name, d)
-                         | DErr e => DErr e
-                         end
+        | DOk (Some v, rest) =>
+            match tag_variant idx_tags variants v with
+            | DErr e => DErr e
+            | DOk (name, fs) => match struct_of_map fs rest with
+                                | DOk d => DOk (name, d)
+                                | DErr e => DErr e
+                                end
             end
-        | DOk (Some _, _) => DErr ETagType
         end
     | JArr [] => DErr EMissingTag
-    | JArr (JStr name :: l) =>
-        match assoc name variants with
-        | None => DErr EUnknownVariant
-        | Some fs => match struct_of_seq fs l [] with
-                     | DOk d => DOk (name, d)
-                     | DErr e => DErr e
-                     end
+    | JArr (v :: l) =>
+        match tag_variant idx_tags variants v with
+        | DErr e => DErr e
+        | DOk (name, fs) => match struct_of_seq fs l [] with
+                            | DOk d => DOk (name, d)
+                            | DErr e => DErr e
+                            end
         end
-    | JArr (_ :: _) => DErr ETagType
     | _ => DErr ENotTagged
     end.
 End Struct.
 
 (* layer 1: Message (fields are leaf types only) *)
-Definition decode_message (j : json) : dres (str * decoded) := tagged decode_basic msg_tag msg_variants j.
+Definition decode_message (j : json) : dres (str * decoded) := tagged decode_basic true msg_tag msg_variants j.
 
 Fixpoint decode_messages (l : list json) : dres nat :=
   match l with
@@ -312,7 +326,7 @@ Definition v1_to_run (name : str) (d : decoded) : dres run :=
   else DErr EShape.
 
 Definition decode_agent_v1 (j : json) : dres run :=
-  match tagged decode_l3 v1_tag v1_variants j with
+  match tagged decode_l3 false v1_tag v1_variants j with
   | DOk (name, d) => v1_to_run name d
   | DErr e => DErr e
   end.
